@@ -10,6 +10,7 @@ max_depth=k gives the whole-document data cut below depth k and the same errors 
 """
 from __future__ import annotations
 
+from harness.core import stable
 import json
 import xml.etree.ElementTree as ET
 
@@ -90,7 +91,7 @@ def cut(data, k, level=1):
 
 def ekey(e, ipath):
     """An error is identified by the node it is about (index path in the parsed tree) and its reason."""
-    return (ipath.get(id(e.elem)) if e.elem is not None else None, str(e.reason)[:160])
+    return (ipath.get(id(e.elem)) if e.elem is not None else None, stable(e.reason)[:160])
 
 
 def judge(job):
